@@ -61,13 +61,23 @@ static std::string text(const Crystal_Struct *c) {      /* the same line from a 
 }
 
 /* the wrapper object is serialised, copied twice (heap copy, copy of the copy), the first copy destroyed, and the surviving
- * copy serialised again: a difference sets F_AUX */
+ * copy serialised again; the same for a moved-to object and for vector elements: a difference sets F_AUX */
 template <class T> static void put_obj(uint32_t j, rec_t *r, const T &o) {
     std::string a = text(o);
     T *p = new T(o);
     T q(*p);
     delete p;
     if (text(q) != a) r->flags |= F_AUX;
+    /* ... and moved out of a heap copy that is destroyed afterwards, and relocated three times inside a growing vector */
+    T *p2 = new T(o);
+    T m(std::move(*p2));
+    delete p2;
+    if (text(m) != a) r->flags |= F_AUX;
+    {
+        std::vector<T> v;
+        for (int i = 0; i < 4; i++) { if (i & 1) v.push_back(T(o)); else v.push_back(o); }
+        if (text(v[0]) != a || text(v[3]) != a) r->flags |= F_AUX;
+    }
     emit(j, a);
 }
 void put(uint32_t j, rec_t *r, const std::string &s) { r->v[0] = (double)s.size(); emit(j, s); }
@@ -184,8 +194,10 @@ static Crystal_Struct *parse_def(const char *s) {
  *   C original c0 (library copy or hand-made struct); reference results of the six queries on c0;
  *   A = wrapper object (GetCrystal(name), or the public constructor from c0's fields and atoms);
  *   B = copy-constructed from A;  F = public constructor from A's public fields;
- *   then A is destroyed and c0 released, and B and F are used (fields, six queries through methods and free functions).
- * line: j \t C=<fields>|<queries> \t B=... \t Bf=<queries via free functions> \t F=...                                  */
+ *   M = move-constructed, R = returned by value from a function, V0/V4 = elements of a vector grown by push_back;
+ *   then A is destroyed and c0 released, and B, F, M, R, V0, V4 are used (fields, six queries through methods and free functions).
+ * line: j \t C=<fields>|<queries> @@B=... @@Bf=<queries via free functions> @@F=... @@M=... @@R=... @@V0=... @@V4=...                                  */
+static XC::Struct pass_through(XC::Struct s) { return s; }
 static void op_life(uint32_t j, rec_t *r, xrl_error **e) {
     const char *src = S(0); if (!src) { xpp_skip(r); return; }
     double E = D(1); int h = I(2), k = I(3), l = I(4);
@@ -201,12 +213,28 @@ static void op_life(uint32_t j, rec_t *r, xrl_error **e) {
             B = new XC::Struct(*A);
             F = new XC::Struct(A->name, A->a, A->b, A->c, A->alpha, A->beta, A->gamma, A->volume, A->atom);
         } catch (...) { delete A; delete B; Crystal_Free(c0); c0 = NULL; throw; }
+        /* the other ways C++ brings an object into existence: M = move-constructed (the source destroyed afterwards), R = returned from a
+         * function that took it by value, V0/V4 = first and last element of a vector that grew by five push_backs (copies and temporaries,
+         * relocated on every growth) - with the class as shipped these all go through the copy constructor */
+        XC::Struct *M = NULL, *R = NULL; std::vector<XC::Struct> *V = NULL;
+        try {
+            XC::Struct *A2 = new XC::Struct(*A);
+            try { M = new XC::Struct(std::move(*A2)); } catch (...) { delete A2; throw; }
+            delete A2;
+            R = new XC::Struct(pass_through(*A));
+            V = new std::vector<XC::Struct>();
+            for (int i = 0; i < 5; i++) { if (i & 1) V->push_back(XC::Struct(*A)); else V->push_back(*A); }
+        } catch (...) { delete A; delete B; delete F; delete M; delete R; delete V; Crystal_Free(c0); c0 = NULL; throw; }
         delete A;
         Crystal_Free(c0); c0 = NULL;
         line += "@@B=" + text(*B) + "|" + pp_queries(*B, E, h, k, l, false);
         line += "@@Bf=" + text(*B) + "|" + pp_queries(*B, E, h, k, l, true);
         line += "@@F=" + text(*F) + "|" + pp_queries(*F, E, h, k, l, false);
-        delete B; delete F;
+        line += "@@M=" + text(*M) + "|" + pp_queries(*M, E, h, k, l, false);
+        line += "@@R=" + text(*R) + "|" + pp_queries(*R, E, h, k, l, true);
+        line += "@@V0=" + text((*V)[0]) + "|" + pp_queries((*V)[0], E, h, k, l, false);
+        line += "@@V4=" + text((*V)[4]) + "|" + pp_queries((*V)[4], E, h, k, l, true);
+        delete B; delete F; delete M; delete R; delete V;
         r->v[0] = 1;
     });
     if (c0) Crystal_Free(c0);
